@@ -3,6 +3,7 @@ pub mod c02;
 pub mod c03;
 pub mod c06;
 pub mod c07;
+pub mod c08;
 pub mod c09;
 pub mod c10;
 pub mod common;
@@ -16,6 +17,7 @@ pub fn dispatch(ctx: &Ctx) -> Option<i32> {
         "C03" => c03_check(ctx),
         "C06" => c06_check(ctx),
         "C07" => c07_check(ctx),
+        "C08" => c08_check(ctx),
         "C09" => c09_check(ctx),
         "C10" => c10_check(ctx),
         _ => return None,
@@ -245,6 +247,36 @@ fn c06_check(ctx: &Ctx) -> i32 {
         exhaustive: complete,
         min_nontrivial: ctx.tier.pick(500, 5000),
         extra,
+    };
+    finish(ctx, agg, rep)
+}
+
+fn c08_check(ctx: &Ctx) -> i32 {
+    let budget = Duration::from_secs(ctx.tier.pick(30, 300));
+    let mut agg = crate::evidence::Agg::default();
+    // memory oracle first, alone in the process (process-wide heap counter)
+    if ctx.replay.is_none() {
+        crate::simnet::set_shard(63);
+        crate::clock::set_thread_prefix("flood-".into());
+        for (i, class) in c08::FLOODS.iter().enumerate() {
+            let out = c08::flood_test(crate::evidence::mix(ctx.seed, i as u64, 5), class, ctx.tier.pick(2_000, 20_000));
+            agg.absorb("flood", i as u64, ctx.seed, out, 0);
+        }
+        for v in 0..4u64 {
+            let out = c08::stream_hostile(crate::evidence::mix(ctx.seed, v, 6), v);
+            agg.absorb("streamhostile", v, ctx.seed, out, 0);
+        }
+    }
+    let agg2 = shard_runs(ctx, "fuzz", ctx.tier.pick(40_000, 3_000_000), budget, Duration::from_secs(60), Arc::new(c08::run_one));
+    agg.merge(agg2);
+    let rep = Report {
+        level: "exploration",
+        rule: "one case = one frame sequence: grammar-generated valid prefix against a real endpoint (handshake, 1-2 pairs, optionally one freed / half-closed pair, an echo, the endpoint's own pending connect) followed by 1-6 hostile steps drawn from 30 mutation kinds (random bytes, truncation, unknown codes/flags, Hello again, Reset, Data without payload / for unknown, connecting, freed ports, oversize chunk, credit overdraw by 1, credit overflow, duplicate / flooded OpenPort, PortOpened/Rejected for wrong ports, repeated finish/close, frames after Goodbye, zero-port PortData, id-count mismatch, huge and duplicate port lists, hostile handshakes). Non-trivial iff the established phase was reached and >=1 hostile step was sent; distinct by hash(hostile kinds sequence, peer version, cfg class). Plus 6 flood classes for the memory oracle (N and 4N frames, paced in bursts of 100 with quiescence between).".into(),
+        explanation: "Oracles: process panic hook (any panic on the shard's threads); if the dispatcher terminated, every local operation (accept loop, echo services, connect, run) must have completed by quiescence; if it did not terminate (and no Goodbye/ClientFinish was injected) a fresh well-formed open + echo must still work; every frame the endpoint emitted must decode strictly; heap growth between N and 4N flood frames must stay under 16 kB + frames/8 with the receiver idle.".into(),
+        assumptions: vec!["the hostile peer keeps reading (outbound healthy); back-pressure from a dead reader is out of scope".into(), "heap measured by the harness's counting global allocator at quiescence".into()],
+        exhaustive: false,
+        min_nontrivial: ctx.tier.pick(300, 3000),
+        extra: BTreeMap::new(),
     };
     finish(ctx, agg, rep)
 }
